@@ -241,7 +241,9 @@ def run(ctx):
     obs = directed(ctx)
     sync_partial_ok = not obs.get("sync_hangs")
     if obs.get("nosync_peer_samples") != 1 or obs.get("nosync_iter"):
-        ctx.report(TAINT_SIG, "directed script: gateway 1, A on node 1, B on node 2, non-Sync writer: Write(A+B @t0); Write(A only @t2); "
+        dup = (obs.get("nosync_peer_samples") or 0) > 1
+        ctx.report(TAINT_SIG if dup else "C07 directed script: cluster differs from the single-node store",
+                   "directed script: gateway 1, A on node 1, B on node 2, non-Sync writer: Write(A+B @t0); Write(A only @t2); "
                    "Commit => node 2 holds %s sample(s) of Bd (1 written). %s" % (obs.get("nosync_peer_samples"), obs.get("nosync_iter", "")),
                    {"directed": obs, "kind": "directed"})
     # 3. behaviours replayed on the real cluster
